@@ -459,14 +459,20 @@ impl Story {
 
         // Content to add to evaluation stack or the output stream
         if should_add_to_stream {
+            // The pointer may address no content at all (an index beyond the
+            // end of its container, from a malformed divert target or save).
+            let mut content_obj = current_content_obj.clone().ok_or_else(|| {
+                StoryError::InvalidStoryState(
+                    "The current content pointer does not address any content.".to_owned(),
+                )
+            })?;
+
             // If we're pushing a variable pointer onto the evaluation stack,
             // ensure that it's specific
             // to our current (possibly temporary) context index. And make a
             // copy of the pointer
             // so that we're not editing the original runtime Object.
-            let var_pointer = Value::get_value::<&VariablePointerValue>(
-                current_content_obj.as_ref().unwrap().as_ref(),
-            );
+            let var_pointer = Value::get_value::<&VariablePointerValue>(content_obj.as_ref());
 
             if let Some(var_pointer) = var_pointer
                 && var_pointer.context_index == -1
@@ -478,21 +484,20 @@ impl Story {
                     .get_callstack()
                     .borrow()
                     .context_for_variable_named(&var_pointer.variable_name);
-                current_content_obj = Some(Rc::new(Value::new_variable_pointer(
+                content_obj = Rc::new(Value::new_variable_pointer(
                     &var_pointer.variable_name,
                     context_idx as i32,
-                )));
+                ));
+                current_content_obj = Some(content_obj.clone());
             }
 
             // Expression evaluation content
             if self.get_state().get_in_expression_evaluation() {
-                self.get_state_mut()
-                    .push_evaluation_stack(current_content_obj.as_ref().unwrap().clone());
+                self.get_state_mut().push_evaluation_stack(content_obj);
             }
             // Output stream content (i.e. not expression evaluation)
             else {
-                self.get_state_mut()
-                    .push_to_output_stream(current_content_obj.as_ref().unwrap().clone());
+                self.get_state_mut().push_to_output_stream(content_obj);
             }
         }
 
@@ -516,6 +521,18 @@ impl Story {
     }
 
     pub(crate) fn next_content(&mut self) -> Result<(), StoryError> {
+        // Popping the call stack at the end of a function or thread steps on
+        // from the place of the call, which may again be the end of content.
+        // This is a loop rather than recursion, so that a deep call stack
+        // unwinding all at once cannot exhaust the native stack.
+        while self.next_content_once()? {}
+
+        Ok(())
+    }
+
+    /// One round of `next_content`; `true` if the call stack was popped and
+    /// the content pointer has to be moved on once more.
+    fn next_content_once(&mut self) -> Result<bool, StoryError> {
         // Setting previousContentObject is critical for
         // VisitChangedContainersDueToDivert
         let cp = self.get_state().get_current_pointer();
@@ -534,7 +551,7 @@ impl Story {
 
             // Diverted location has valid content?
             if !self.get_state().get_current_pointer().is_null() {
-                return Ok(());
+                return Ok(false);
             }
 
             // Otherwise, if diverted location doesn't have valid content,
@@ -593,11 +610,11 @@ impl Story {
 
             // Step past the point where we last called out
             if did_pop && !self.get_state().get_current_pointer().is_null() {
-                self.next_content()?;
+                return Ok(true);
             }
         }
 
-        Ok(())
+        Ok(false)
     }
 
     pub(crate) fn increment_content_pointer(&self) -> bool {
@@ -611,7 +628,7 @@ impl Story {
             .get_current_element()
             .current_pointer
             .clone();
-        pointer.index += 1;
+        pointer.index = pointer.index.saturating_add(1);
 
         let mut container = pointer.container.as_ref().unwrap().clone();
 
